@@ -3,7 +3,7 @@
 # without it and fail with it?   usage: tools/confirm_seeds.sh [PID ...]
 cd /verif
 DIR=seeded
-PIDS="$@"; [ -z "$PIDS" ] && PIDS=$(ls $DIR)
+PIDS="$@"; [ -z "$PIDS" ] && PIDS=$(cd $DIR && ls -d C*)
 for p in $PIDS; do
   for d in /verif/$DIR/$p/*/patch.diff; do
     n=$(basename $(dirname $d))
